@@ -40,6 +40,7 @@ type callbackSpec struct {
 
 type FuncContract struct {
 	iter      *iterSpec
+	yields    string // `yields <param>`: the function calls this callback until it returns false and never after that
 	callbacks []*callbackSpec
 	relies            []clause // type contracts: conditions every implementation may rely on that are NOT checked at call sites (listed as assumptions)
 	pkg               string   // package path the block is declared in
@@ -534,6 +535,12 @@ func (cs *ContractSet) parseFile(pkgPath, filename string, lines []string, lineN
 					cur.pureParams[n] = true
 				}
 			}
+		case "yields":
+			if cur == nil {
+				cs.errors = append(cs.errors, where+": yields outside a block")
+				continue
+			}
+			cur.yields = strings.TrimSpace(rest)
 		case "iterates":
 			if cur == nil {
 				cs.errors = append(cs.errors, where+": iterates outside a block")
